@@ -359,6 +359,10 @@ func EFXReadOnlyTypes(c *Ctx, cfg string, an *efx.Analyzer) {
 // roCheck: fn writes nothing reachable from its parameters (except stream /
 // writer parameters and those in allow) nor any global.
 func roCheck(c *Ctx, p *core.Prog, an *efx.Analyzer, fn *ssa.Function, rule string, allow map[int]bool) {
+	roCheckP(c, p, an, fn, rule, allow, nil)
+}
+
+func roCheckP(c *Ctx, p *core.Prog, an *efx.Analyzer, fn *ssa.Function, rule string, allow map[int]bool, allowPaths []string) {
 	name := shortFn(fn)
 	pos := p.FnPos(fn)
 	if !hasReturn(fn) {
@@ -372,9 +376,115 @@ func roCheck(c *Ctx, p *core.Prog, an *efx.Analyzer, fn *ssa.Function, rule stri
 		return
 	}
 	bad := writesOutside(fn, s, func(i int) bool { return allow[i] })
+	if len(allowPaths) > 0 {
+		var keep []efx.Path
+		for _, w := range bad {
+			ok := false
+			for _, ap := range allowPaths {
+				if efx.Under(w, efx.Path(ap)) {
+					ok = true
+				}
+			}
+			if !ok {
+				keep = append(keep, w)
+			}
+		}
+		bad = keep
+	}
 	if len(bad) > 0 {
 		c.R.Bad(rule, name, "read-only", pos, "may write shared memory: "+describeWrites(p, s, bad))
 	} else {
 		c.R.Ok(rule, name, "read-only", pos, fmt.Sprintf("%d regions read, none written", len(s.Reads)), true)
+	}
+}
+
+// ---- read-only targets beyond the point/scalar types -------------------------
+
+// roTargets: functions that must not write memory reachable from their
+// parameters (allow: parameter indices that are outputs by contract).
+type roTarget struct {
+	Func       string
+	Allow      []int
+	AllowPaths []string // regions whose writes are outside the claim (with reason in Why)
+	Why        string
+}
+
+func roTargetList(c *Ctx, p *core.Prog) []roTarget {
+	var out []roTarget
+	add := func(why string, fs ...string) {
+		for _, f := range fs {
+			out = append(out, roTarget{Func: f, Why: why})
+		}
+	}
+	// groups and suites: accessors and pairing evaluation
+	if it := p.LookupInterface(core.ModPath, "Group"); it != nil {
+		for _, nt := range p.Implementors(it) {
+			for _, m := range []string{"String", "ScalarLen", "Scalar", "PointLen", "Point", "Hash", "XOF", "RandomStream", "G1", "G2", "GT", "Pair", "ValidatePairing", "NewKey"} {
+				if fn := p.Method(nt, m); fn != nil && len(fn.Blocks) > 0 && fn.Synthetic == "" {
+					out = append(out, roTarget{Func: shortFn(fn), Why: "suite/group accessor or pairing evaluation on shared operands"})
+				}
+			}
+		}
+	}
+	if it := p.LookupInterface(core.ModPath+"/pairing", "Suite"); it != nil {
+		for _, nt := range p.Implementors(it) {
+			for _, m := range []string{"G1", "G2", "GT", "Pair", "ValidatePairing", "Hash", "XOF", "RandomStream", "String"} {
+				if fn := p.Method(nt, m); fn != nil && len(fn.Blocks) > 0 && fn.Synthetic == "" {
+					out = append(out, roTarget{Func: shortFn(fn), Why: "pairing suite"})
+				}
+			}
+		}
+	}
+	add("public polynomial shared between verifiers",
+		"(*share.PubPoly).Eval", "(*share.PubPoly).Check", "(*share.PubPoly).Commit", "(*share.PubPoly).Info", "(*share.PubPoly).Threshold",
+		"(*share.PubPoly).Equal", "(*share.PubPoly).Shares", "(*share.PubPoly).Add",
+		"(*share.PriPoly).Eval", "(*share.PriPoly).Shares", "(*share.PriPoly).Equal", "(*share.PriPoly).Commit", "(*share.PriPoly).Secret",
+		"(*share.PriPoly).Threshold", "(*share.PriPoly).Coefficients", "(*share.PriPoly).Add", "(*share.PriPoly).Mul",
+		"share.RecoverSecret", "share.RecoverCommit", "share.RecoverPriPoly", "share.RecoverPubPoly")
+	add("verification with shared keys / messages / signatures",
+		"sign/schnorr.Verify", "sign/schnorr.VerifyWithChecks", "sign/schnorr.Sign", "sign/eddsa.Verify", "sign/eddsa.VerifyWithChecks",
+		"(*sign/bls.scheme).Verify", "(*sign/bls.scheme).Sign", "(*sign/tbls.scheme).VerifyPartial", "(*sign/tbls.scheme).VerifyRecovered",
+		"(*sign/tbls.scheme).Recover", "(*sign/tbls.scheme).Sign",
+		"(*sign/bdn.Scheme).Verify", "(*sign/bdn.Scheme).AggregateSignatures", "(*sign/bdn.Scheme).AggregatePublicKeys", "(*sign/bdn.Scheme).Sign",
+		"sign/cosi.Verify", "sign/anon.Verify", "sign/anon.Sign", "sign/dss.Verify", "(*proof/dleq.Proof).Verify", "proof/dleq.NewDLEQProof",
+		"share/pvss.VerifyEncShare", "share/pvss.VerifyEncShareBatch", "share/pvss.DecShare", "share/pvss.DecShareBatch",
+		"share/pvss.VerifyDecShare", "share/pvss.VerifyDecShareBatch", "share/pvss.RecoverSecret", "share/pvss.EncShares",
+		"encrypt/ecies.Encrypt", "encrypt/ecies.Decrypt", "encrypt/ibe.EncryptCCAonG1", "encrypt/ibe.DecryptCCAonG1",
+		"encrypt/ibe.EncryptCCAonG2", "encrypt/ibe.DecryptCCAonG2", "encrypt/ibe.EncryptCPAonG1", "encrypt/ibe.DecryptCPAonG1",
+		"sign/anon.Encrypt", "sign/anon.Decrypt")
+	add("participation mask read by several goroutines",
+		"(*sign/bdn.Mask).Mask", "(*sign/bdn.Mask).Len", "(*sign/bdn.Mask).GetBit", "(*sign/bdn.Mask).IndexOfNthEnabled", "(*sign/bdn.Mask).NthEnabledAtIndex",
+		"(*sign/bdn.Mask).Publics", "(*sign/bdn.Mask).Participants", "(*sign/bdn.Mask).CountEnabled", "(*sign/bdn.Mask).CountTotal", "(*sign/bdn.Mask).Clone",
+		"(*sign/cosi.Mask).Mask", "(*sign/cosi.Mask).Len", "(*sign/cosi.Mask).IndexEnabled", "(*sign/cosi.Mask).KeyEnabled",
+		"(*sign/cosi.Mask).CountEnabled", "(*sign/cosi.Mask).CountTotal")
+	out = append(out, roTarget{Func: "(*util/random.randstream).XORKeyStream", Allow: []int{1}, AllowPaths: []string{"P0.Readers*[]*"},
+		Why: "stateless random stream: only dst is written; the user-supplied readers advance (races inside user readers are not claimed)"})
+	add("hex/stream helpers do not change the value encoded",
+		"util/encoding.PointToStringHex", "util/encoding.ScalarToStringHex", "util/encoding.WriteHexPoint", "util/encoding.WriteHexScalar",
+		"group/internal/marshalling.PointMarshalTo", "group/internal/marshalling.ScalarMarshalTo")
+	return out
+}
+
+func EFXReadOnlyTargets(c *Ctx, cfg string, an *efx.Analyzer) {
+	p := c.Prog(cfg)
+	if p == nil {
+		return
+	}
+	seen := map[string]bool{}
+	for _, t := range roTargetList(c, p) {
+		if seen[t.Func] {
+			continue
+		}
+		seen[t.Func] = true
+		fn := p.Fn(t.Func)
+		if fn == nil || len(fn.Blocks) == 0 {
+			c.R.Unk("EFX-RO", t.Func, "read-only", "", "anchored function not found")
+			continue
+		}
+		allow := map[int]bool{}
+		for _, i := range t.Allow {
+			allow[i] = true
+		}
+		roCheckP(c, p, an, fn, "EFX-RO", allow, t.AllowPaths)
 	}
 }
